@@ -516,6 +516,8 @@ package eventlogger
 
 // ---- Event format table (C14, C19) ----
 //@ type Event guarded_by l: Formatted
+//@ type Filter immutable Predicate
+//@ type JSONFormatterFilter immutable Predicate
 
 //@ func (*Event).FormattedAs(formatType, formattedValue)
 //@   requires e != nil && held(e.l) == 0
@@ -668,7 +670,7 @@ package eventlogger
 //@ func (*JSONFormatter).Process(ctx, e) (out, err)
 //@   requires e != nil && held(e.l) == 0
 //@   assigns ev, Event.Formatted, map:map[string][]byte, held, lockacq, buf, enc, bytes
-//@   ensures C14/one-json-line-of-time-type-payload: err == nil ==> out == e && e.Formatted != nil && ("json" in e.Formatted) && content(e.Formatted["json"]) == jsonLine(e)
+//@   ensures C14+C19/one-json-line-of-time-type-payload: err == nil ==> out == e && e.Formatted != nil && ("json" in e.Formatted) && content(e.Formatted["json"]) == jsonLine(e)
 //@   ensures C14/unencodable-payload-forwards-nothing: err != nil ==> out == nil && e.Formatted == old(e.Formatted) && (old(e.Formatted) != nil ==> (forall k string :: (k in e.Formatted) == old(k in e.Formatted) && e.Formatted[k] == old(e.Formatted[k])))
 //@   ensures C14/event-itself-untouched: e.Type == old(e.Type) && e.Payload == old(e.Payload) && e.CreatedAt == old(e.CreatedAt)
 //@   ensures C14/other-formats-kept: forall k string :: k != "json" && old(e.Formatted) != nil ==> (k in e.Formatted) == old(k in e.Formatted) && e.Formatted[k] == old(e.Formatted[k])
@@ -678,7 +680,7 @@ package eventlogger
 //@   requires w != nil && e != nil && held(e.l) == 0
 //@   requires C12/callback-free: cbfree()
 //@   assigns ev, ctxdone, Event.Formatted, map:map[string][]byte, held, lockacq, buf, enc, bytes
-//@   ensures C14/one-json-line-of-time-type-payload: out != nil ==> err == nil && out == e && e.Formatted != nil && ("json" in e.Formatted) && content(e.Formatted["json"]) == jsonLine(e)
+//@   ensures C14+C19/one-json-line-of-time-type-payload: out != nil ==> err == nil && out == e && e.Formatted != nil && ("json" in e.Formatted) && content(e.Formatted["json"]) == jsonLine(e)
 //@   ensures C14/forwarded-iff-no-predicate-or-predicate-true: w.Predicate == nil ==> ((out == e && err == nil) || (out == nil && err != nil && calls("fn:JSONFormatterFilter.Predicate") == old(calls("fn:JSONFormatterFilter.Predicate"))))
 //@   ensures C14/predicate-decides: calls("fn:JSONFormatterFilter.Predicate") == old(calls("fn:JSONFormatterFilter.Predicate")) + 1 ==> ((out == e && err == nil) <==> (ev_a(ev_n - 1, 6) == 0 && ev_a(ev_n - 1, 5) == 1)) && ((err != nil) <==> (ev_a(ev_n - 1, 6) != 0)) && ev_kind(ev_n - 1) == "callfn:JSONFormatterFilter.Predicate"
 //@   ensures C14/nothing-forwarded-otherwise: out == nil || out == e
